@@ -682,6 +682,7 @@ class CallMixin:
         if side == 'parse' and len(func.params) > 1 and func.params[1] == 'name':
             key = env.get('name')
         op = Op(target, side, func.name, env, key if isinstance(key, str) else None, node, fr.func)
+        op.in_block = fr.block
         op.index = len(target.ops)
         target.ops.append(op)
         fr.emit(op)
@@ -865,6 +866,8 @@ class CallMixin:
                 ex = ['builtins.ValueError', 'builtins.OverflowError', 'builtins.OSError']
         if d == 'six.indexbytes' and len(args) == 2 and ('#index %s of %s' % (show(args[1]), show(a0))) in fr.nonempty:
             ex = None           # an enclosing ``offset < len(buffer)`` (if / and) established that the octet exists
+        if d == 'six.indexbytes' and len(args) == 2 and ex and self.cursor_before_a_read(a0, args[1], fr):
+            ex = None           # the cursor as it stood before a read of the same buffer that has succeeded since: that octet was read
         if ex and not all(is_const(a) for a in args):
             self.risk(fr, 'ext:' + d, tuple(ex), a0, node)
         if d.split('.')[-1] in external_table()['methods'] and '.' in d and ex is None:
@@ -875,6 +878,24 @@ class CallMixin:
             if mex and not all(is_const(a) for a in args):
                 self.risk(fr, 'ext:' + d, tuple(mex), a0, node)
         return Sym('call', d, *args, *[('kw', k, v) for k, v in kwargs.items()])
+
+    @staticmethod
+    def cursor_before_a_read(buf, idx, fr):
+        """``idx`` is ``parser.parsed_length`` taken when the parser (constructed over ``buf``) had performed n operations, and it
+        has completed a further read primitive since: every primitive that returns has consumed what it read, and the reads of
+        at least one octet (numeric, length prefixed string / bytes) start at that cursor"""
+        if not (isinstance(idx, Sym) and idx.op == 'plen' and isinstance(idx.args[0], ParserV)):
+            return False
+        p, n = idx.args[0], idx.args[1]
+        if p.over is not buf and show(p.over) != show(buf):
+            return False
+        later = p.ops[n:]
+        if not later:
+            return False
+        first = later[0]
+        sized = first.prim in ('parse_numeric', 'parse_string', 'parse_bytes', 'parse_numeric_array', 'parse_numeric_flags', 'parse_timestamp')
+        # the read and this use are statements of the same block: the read has completed whenever the use is reached
+        return sized and getattr(first, 'in_block', None) is fr.block
 
     def isinstance_v(self, v, t):
         types = t if isinstance(t, tuple) else (t,)
